@@ -10,16 +10,15 @@ import z3
 
 import specs.datatypes  # noqa: F401  (Boolean.encode / Duration.encode contracts)
 import specs.vault  # noqa: F401  (Element.__append hook)
-from pyvc.attrmodel import (ABSENT, ATTR, attr_obj_maker, h_del_attribute, h_get_attribute,
-                            h_get_attribute_string, h_set_attribute)
+import specs.attrs  # noqa: F401  (verified Element.get/set/del_attribute contracts, Element.__init__ hook)
+from pyvc.attrmodel import ABSENT
+from pyvc.lxmlmodel import ELEM, elem_maker, new_node
 from pyvc.engine import OpaqueV
 from pyvc.spec import Bool, Clause, Const, Int, Model, NoneT, OneOf, Opaque, S, Str, contract
 
 _EXT = dict(trusted=True, sig={}, note="thin wrapper over lxml attrib: attribute-map model operation")
-contract("odfdo.element:Element.del_attribute", call=h_del_attribute, **_EXT)
-contract("odfdo.element:Element.set_attribute", call=h_set_attribute, **_EXT)
-contract("odfdo.element:Element.get_attribute", call=h_get_attribute, **_EXT)
-contract("odfdo.element:Element.get_attribute_string", call=h_get_attribute_string, **_EXT)
+ATTR_INLINE = {"odfdo.element:Element.del_attribute", "odfdo.element:Element.set_attribute",
+               "odfdo.element:Element.get_attribute", "odfdo.element:Element.get_attribute_string"}
 contract("odfdo.element:Element._erase_text_content", call=lambda en, con, vals, site: None, **_EXT)
 
 ENC_DT = z3.Function("enc_datetime", z3.IntSort(), z3.StringSort())
@@ -39,7 +38,7 @@ def _num(pytype):
 
 def _elem():
     from odfdo.element_typed import ElementTyped
-    return Model("TypedElement", attr_obj_maker, cls=ElementTyped)
+    return Model("TypedElement", elem_maker, cls=ElementTyped)
 
 
 VT, BV, V, DV, SV, TV = ("office:value-type", "office:boolean-value", "office:value", "office:date-value",
@@ -98,7 +97,9 @@ contract(
     "odfdo.element_typed:ElementTyped.set_value_and_type",
     sig=[dict(self=_elem(), **sig) for _n, sig, _p in CASES],
     ensures=[Clause("dispatch", {"C06"}, _dispatch)],
-    note="value_type / text / currency left at their default None (the typed-value round trip of C06)",
+    inline=ATTR_INLINE,
+    note="value_type / text / currency left at their default None (the typed-value round trip of C06); the "
+         "attribute wrappers are interpreted from their source down to lxml's get/set/attrib",
 )
 
 
@@ -112,7 +113,7 @@ def _h_text_set(en, con, vals, site):
 def _h_from_tag(en, con, vals, site):
     from odfdo.element import Element
     from pyvc.engine import ObjV
-    return ObjV(Element, {"__attrs": {}, "__tag": vals["tag_or_elem"]}, model=ATTR)
+    return ObjV(Element, {"_Element__element": new_node({}), "_do_init": False, "__tag": vals["tag_or_elem"]}, model=ELEM)
 
 
 contract("odfdo.element:Element.text.fset", call=_h_text_set, **_EXT)
@@ -164,12 +165,13 @@ def _meta_dispatch(a, r, p):
 
 def _meta_obj():
     from odfdo.meta import Meta
-    return Model("Meta", attr_obj_maker, cls=Meta)
+    return Model("Meta", elem_maker, cls=Meta)
 
 
 contract(
     "odfdo.meta:Meta.set_user_defined_metadata",
     sig=[dict(self=_meta_obj(), name=Str, **sig) for _n, sig, _p in META_CASES],
     ensures=[Clause("dispatch", {"C06"}, _meta_dispatch)],
+    inline=ATTR_INLINE,
     note="case: no user-defined entry of that name exists yet (the XPath lookup is assumed to return none)",
 )
